@@ -1472,17 +1472,21 @@ def oracle_accepts(a):
         if not isinstance(t, str):
             continue
         if t in ("XmlDuration", "XmlPeriod"):
-            c = s.strip(XSD_WS)
-            if RX[t].match(c) and c == s.strip():
+            # the XSD lexical spaces of duration / g* as transcribed for C06 (own regexes, no call into xsdata)
+            from props import c06 as _c06
+
+            ref = _c06.xsd_duration(s) if t == "XmlDuration" else _c06.xsd_period(s)
+            if ref is not None:
                 cls = XmlDuration if t == "XmlDuration" else XmlPeriod
                 try:
-                    converter.deserialize(c, [cls])
+                    got = converter.deserialize(s, [cls])
                 except ConverterError:
-                    continue  # not judged: value-level restrictions
-                try:
-                    converter.deserialize(s, [cls])
-                except ConverterError:
-                    return f"{t}: {c!r} is accepted but the same lexical form with surrounding XSD white space {s!r} is rejected"
+                    return f"XSD-valid {t} lexical form {s!r} is rejected"
+                except Exception as e:  # noqa: BLE001
+                    return f"deserialize({s!r}, [{t}]) raised {type(e).__name__}"
+                comp = got.asdict() if t == "XmlDuration" else got.as_dict()
+                if not isinstance(got, cls) or comp != ref:
+                    return f"XSD-valid {t} lexical form {s!r} is read as {comp}, XSD assigns {ref}"
             continue
         if t not in TYPES or t == "unregistered":
             continue
@@ -1801,16 +1805,25 @@ def oracle_test(a):
     t = TYPES[a["types"][0]]
     s = a["s"]
     res = converter.test(s, [t], strict=True)
+    # the value and its canonical spelling, computed with the standard library only (the documented canonical forms:
+    # str(int); repr(float) in upper case without "E+", INF / -INF / NaN; Decimal in positional notation, INF / -INF)
     try:
-        v = converter.deserialize(s, [t])
-    except ConverterError:
-        return "test() is True but deserialize fails" if res else None
+        if t is int:
+            v = int(s)
+            canon = str(v)
+        elif t is float:
+            v = float(s)
+            canon = "NaN" if math.isnan(v) else ("INF" if v > 0 else "-INF") if math.isinf(v) else repr(v).upper().replace("E+", "E")
+        else:
+            v = Decimal(s)
+            canon = str(v).replace("Infinity", "INF") if v.is_infinite() else format(v, "f")
+    except (ValueError, ArithmeticError):
+        return "test() is True but the standard library cannot read the string" if res else None
     special = isinstance(v, float) and (math.isnan(v) or math.isinf(v))
     if special and not res:
         return f"test({s!r}, [float], strict) is False for an accepted spelling of a special value (documented: always True)"
-    canon = converter.serialize(v)
     if res and not special and canon != s.strip():
-        return f"test({s!r}, [{t.__name__}], strict) is True but serialize gives {canon!r}"
+        return f"test({s!r}, [{t.__name__}], strict) is True but the canonical spelling is {canon!r}"
     if not res and canon == s.strip():
         return f"test({s!r}, [{t.__name__}], strict) is False although {s!r} is the canonical spelling"
     return None
